@@ -562,7 +562,8 @@ pub fn execute(plan: &Plan, ctx: &mut Ctx) {
     }
 
     // (H2) absent deletion for the kinds that ignore absent samples
-    if matches!(kind.as_str(), "ewma_f" | "ewma_q" | "ma_f" | "ma_q" | "a2s" | "v2s" | "p2s") {
+    // (not in histories with a flapping input: deleting an update would move the flap to another one)
+    if matches!(kind.as_str(), "ewma_f" | "ewma_q" | "ma_f" | "ma_q" | "a2s" | "v2s" | "p2s") && !plan.ops.iter().any(|o| o.code == "FLAP") {
         let mut keep: Vec<usize> = Vec::new();
         let mut any = false;
         for i in 0..n {
